@@ -1,3 +1,4 @@
+import re
 from mindsdb_sql.parser.ast.base import ASTNode
 from mindsdb_sql.exceptions import ParsingException
 from mindsdb_sql.parser.utils import indent
@@ -96,8 +97,16 @@ class Function(Operation):
         distinct_str = 'DISTINCT ' if self.distinct else ''
 
         from_str = f' FROM {self.from_arg.to_string()}' if self.from_arg else ''
-        namespace = self.namespace + '.' if self.namespace else ''
-        return f'{namespace}{self.op}({distinct_str}{args_str}{from_str})'
+        def name_to_str(name):
+            # a name that was written quoted because it is not a plain word ("a b"()) is printed quoted
+            # (the sqlite / mysql grammars keep the back-quotes in the name: printed as it is)
+            if isinstance(name, str) and name != '' and re.fullmatch(r'[a-zA-Z_][a-zA-Z_0-9]*', name) is None \
+                    and not (len(name) > 2 and name[0] == '`' and name[-1] == '`'):
+                return '`' + name.replace('`', '``') + '`'
+            return name
+
+        namespace = name_to_str(self.namespace) + '.' if self.namespace else ''
+        return f'{namespace}{name_to_str(self.op)}({distinct_str}{args_str}{from_str})'
 
 
 class WindowFunction(ASTNode):
